@@ -148,6 +148,23 @@ def _run_history(ops, record, j, m, path):
                 ok = fail("load/sessions-in", f"sessions() next_num_in={lo.next_num_in} model={ms['in']} (create_or_load says {cl.next_num_in})")
         return ok
 
+    def walk(res, key, d):
+        """Content of a range result. A list is taken as it is; anything else (a lazy result) is walked the way the resend
+        code walks it - element by element, with other reads of the same journal in between - and must still be what was
+        stored when the query was made."""
+        if isinstance(res, (list, tuple)):
+            return list(res)
+        out = []
+        for x in res:
+            out.append(x)
+            if len(out) == 1:
+                j.recover_msg(_S(key), d, 1)
+                j.sessions() if hasattr(j, "sessions") else None
+        classes_lazy.append(1)
+        return out
+
+    classes_lazy = []
+
     def full_ok():
         ok = load_paths_ok()
         got = j.get_all_msgs()
@@ -156,7 +173,7 @@ def _run_history(ops, record, j, m, path):
             ok = fail("content/get_all_msgs", f"get_all_msgs()={got!r} model={exp!r}")
         for ms in m.sessions.values():
             for d in (IN, OUT):
-                g = j.recover_messages(_S(ms["key"]), d, 0, sys.maxsize)
+                g = walk(j.recover_messages(_S(ms["key"]), d, 0, sys.maxsize), ms["key"], d)
                 e = [b for _, b in m.rows_of(ms["key"], d)]
                 if g != e:
                     ok = fail("content/recover-all", f"recover_messages(all) session={ms['key']} dir={d.name}: {g!r} != {e!r}")
@@ -239,6 +256,9 @@ def _run_history(ops, record, j, m, path):
                 ms = m.sessions[(t, s)]
                 d = DIRS[dn]
                 got = j.recover_messages(_S(ms["key"]), d, str(lo) if spell[0] == "s" else lo, str(hi) if spell[1] == "s" else hi)
+                if not isinstance(got, list):
+                    got = walk(got, ms["key"], d)
+                    classes.add("lazy-result-walked")
                 if spell != "ii":
                     classes.add("range-str-bounds")
                 if isinstance(got, list) and got and (len(o) + lo + hi) % 3 == 0:
@@ -247,6 +267,7 @@ def _run_history(ops, record, j, m, path):
                     keep = list(got)
                     got.clear()
                     again = j.recover_messages(_S(ms["key"]), d, str(lo) if spell[0] == "s" else lo, str(hi) if spell[1] == "s" else hi)
+                    again = walk(again, ms["key"], d)
                     classes.add("result-edited-then-requeried")
                     if again != keep:
                         fail("range/result-after-caller-edit", f"recover_messages({lo},{hi}) after the caller cleared the previous result: got {again!r} expected {keep!r}")
